@@ -4,7 +4,8 @@ C30 to judge the bytes on the wire) and frame-building helpers for the generator
 `ref_decode(cfg, data, quirks=False)` reads the property statement: which data messages a conforming
 receiver extracts from the byte stream, which control frames it sees, where it has to fail the
 connection (and with which close code), where the configured limits trip.  With `quirks=True` it
-follows the Go reader's known lenient branches instead (only used to collect the inflate table)."""
+follows the Go reader's one remaining deviation instead (64-bit length with the top bit set: "too big", no close
+frame; only used to collect the inflate table)."""
 import zlib
 
 TAIL = b"\x00\x00\xff\xff"
@@ -125,11 +126,9 @@ def ref_decode(cfg, data, quirks=False, known_good=None, gray_accept=go_valid_co
             if not comp:
                 viol.append("rsv1-not-negotiated")
             elif ctl:
-                if not quirks:
-                    viol.append("rsv1-control")
+                viol.append("rsv1-control")        # rejected by the Go reader since a4ffe486
             elif op == 0:
-                if not quirks:
-                    viol.append("rsv1-continuation")
+                viol.append("rsv1-continuation")   # rejected by the Go reader since a4ffe486
         if rsv2:
             viol.append("rsv2")
         if rsv3:
@@ -196,8 +195,7 @@ def ref_decode(cfg, data, quirks=False, known_good=None, gray_accept=go_valid_co
             if n == 0:
                 return term("cl:1005:-", "close", ("close", None))
             if n == 1:
-                if quirks:
-                    return term("cl:1005:-", "close-len1", ("close", None))
+                # rejected by the Go reader since 13f4dfc8
                 return term("proto", "close-len1", ("close", 1002))
             code = p[0] * 256 + p[1]
             if must_reject_code(code):
@@ -218,8 +216,7 @@ def ref_decode(cfg, data, quirks=False, known_good=None, gray_accept=go_valid_co
                     "interleaved": False, "nframes": 0}
         total = len(frag["acc"]) + n
         if total >= TWO63:
-            if quirks:
-                return term("toobig", "length-overflow")
+            # the Go reader writes the 1009 frame on this exit since 7b24129f
             return term("toobig", "length-overflow", ("close", 1009))
         if rl > 0 and total > rl:
             return term("toobig", "read-limit", ("close", 1009))
